@@ -22,6 +22,25 @@ static_assert(TaskStatus::SUCCESS < TaskStatus::FAILURE, "VERIF C08.d SUCCESS < 
 ''', 2, ['-DFFSM2_ENABLE_PLANS=']),
 }
 
+def capacity_unit(rule):
+    """type-level unit: for every capacity N = 1..255 the bit stream buffer and the bit array really own ceil(N/8) bytes, and the
+    round-up helper is exact in the (8-bit) operand type they use -- messages carry the rule id of the check that asks"""
+    name = 'capacities-' + rule
+    if name not in UNITS:
+        UNITS[name] = ('''
+#include "w_common.hpp"
+template <unsigned N> struct Cap {
+	static_assert(sizeof(typename ffsm2::detail::StreamBufferT<N>::Data) == (N + 7) / 8, "VERIF %(r)s StreamBufferT<N> owns ceil(N/8) bytes for every N up to 255");
+	static_assert(sizeof(ffsm2::detail::BitArrayT<N>) == (N + 7) / 8, "VERIF %(r)s BitArrayT<N> owns ceil(N/8) units for every N up to 255");
+	static_assert(ffsm2::contain(static_cast<ffsm2::Long>(N), 8u) == (N + 7) / 8, "VERIF %(r)s contain() rounds up exactly in the 8-bit operand type");
+	static constexpr bool OK = Cap<N - 1>::OK;
+};
+template <> struct Cap<0> { static constexpr bool OK = true; };
+static_assert(Cap<255>::OK, "");
+''' % {'r': rule}, 255 * 3, ['-DFFSM2_ENABLE_SERIALIZATION=', '-DFFSM2_ENABLE_PLANS=', '-ftemplate-depth=1024'])
+    return name
+
+
 ERR = re.compile(r'static_assert failed[^"]*"(VERIF [^"]*)"|static assertion failed: (VERIF [^\\n]*)')
 
 _cache = {}
